@@ -136,6 +136,16 @@ func oracleC03(x *Exec, so *StepObs) {
 			return
 		}
 		if top.Manifest != goodRec.Manifest {
+			// which revision was restored instead? One labelled superseded that never was deployed (a failed upgrade whose
+			// own automatic rollback failed too relabels it so) is a recorded finding of its own
+			ever := x.everDepBefore(so)
+			for _, lr := range before.Ledger {
+				if lr.Rev > good && lr.Status == "superseded" && !ever[lr.Rev] && lr.Manifest == top.Manifest {
+					cause += ":restored-a-superseded-revision-that-never-was-deployed"
+					fail("atomic-upgrade-restores", fmt.Sprintf("revision %d carries the manifest of revision %d, which is labelled superseded but never was deployed (a failed upgrade relabelled by its failed rollback), not that of revision %d (the most recent revision that had been deployed)", top.Rev, lr.Rev, good))
+					return
+				}
+			}
 			fail("atomic-upgrade-restores", fmt.Sprintf("revision %d does not carry the manifest of revision %d (the most recent revision that had been deployed)", top.Rev, good))
 			return
 		}
@@ -280,6 +290,13 @@ func (x *Exec) everDepBefore(so *StepObs) map[int]bool {
 		for _, w := range []*WorldObs{s.Before, s.After} {
 			if w == nil {
 				continue
+			}
+			// a revision number that has left the history (uninstall purged it, pruning removed it) and comes back later
+			// names another revision: what was observed about the old one does not carry over
+			for rev := range m {
+				if w.Rev(rev) == nil {
+					delete(m, rev)
+				}
 			}
 			for _, d := range w.Deployed() {
 				m[d] = true
